@@ -8,7 +8,7 @@ MANIFEST = dict(
    note="Trusted: Lean kernel; axioms propext/Classical.choice/Quot.sound only; Go's rune decoding of the tag (the model starts from []rune(tag)); unicode.IsSpace table as transcribed; the harness, the generators in vlib/c06.py and the comparer. The rule matrix is finite: the listed field types, one parameter per rule, pairs of rules, boundary probes only. Format rules (email/url/uuid/regex) are judged on blatant members/non-members. Type graphs: finite acyclic VALUES only (no cyclic pointer structures); probes are single corruptions of one valid value per root, recursion unfolded twice (thorough: three times); the graph world has one scalar field `V int min=3` per struct and edge tags `required` / `max=2` / none. Histories: string fields, rules enum/includes/startswith/endswith/min/max/length/required. The documented meaning is this check's reading of docs/tags.md (required = presence; an untagged field is not validated; a nil slice/map is the absent container).",
    design="DESIGN.md §5 C06")
 
-MODULES = ["Gozod.Proofs.C06", "Gozod.Proofs.C06G", "Gozod.Proofs.C06H", "Gozod.Proofs.C06S", "Gozod.Proofs.C06M", "Gozod.Proofs.C06T"]
+MODULES = ["Gozod.Proofs.C06", "Gozod.Proofs.C06G", "Gozod.Proofs.C06H", "Gozod.Proofs.C06S", "Gozod.Proofs.C06M", "Gozod.Proofs.C06T", "Gozod.Proofs.C06R"]
 THEOREMS = [
     "Gozod.C06.c06_no_panic", "Gozod.C06.c06_legacy_panics", "Gozod.C06.c06_parse_ws", "Gozod.C06.c06_rule_ws",
     "Gozod.C06.c06_parts_ws", "Gozod.C06.accept_pair", "Gozod.C06.accept_comm",
@@ -31,6 +31,8 @@ THEOREMS = [
     "Gozod.C06.c06_tag_meaning_all_false",
     "Gozod.C06.c06_table_is_model", "Gozod.C06.c06_table_side", "Gozod.C06.c06_table_documented", "Gozod.C06.c06_specs_agree",
     "Gozod.C06.c06_matrix_tags_parse",
+    # whitespace independence on the raw tag string (Proofs/C06R.lean)
+    "Gozod.C06.c06_tag_ws", "Gozod.C06.c06_tag_ws_rules", "Gozod.C06.outs_join",
 ]
 # witnesses that the known-finding region is exact; they stop checking when the library is repaired
 W_MODULES = ["Gozod.Proofs.C06W"]
